@@ -449,6 +449,216 @@ fn direct(run: &Run, w: &World, shape: &str, kind: KeyKind, chain: &str) {
     }
 }
 
+
+// ---------------------------------------------------------------------------------------------------------
+// validity windows x signing time x anchor kind
+// ---------------------------------------------------------------------------------------------------------
+const V_WHICH: &[&str] = &["ee", "inter"];
+const V_WINDOWS: &[&str] = &["valid", "expired", "future"];
+const V_TIMES: &[&str] = &["none", "inside", "before-notBefore", "after-notAfter"];
+const V_ANCHORS: &[&str] = &["system", "user", "both"];
+
+fn v_window(w: &str, now: i64) -> (i64, i64) {
+    match w {
+        "valid" => (now - 30 * pki::DAY, now + 10 * pki::DAY),
+        "expired" => (now - 60 * pki::DAY, now - 30 * pki::DAY),
+        "future" => (now + 30 * pki::DAY, now + 60 * pki::DAY),
+        other => kit::ev::machinery(format!("C05: unknown window {other}")),
+    }
+}
+
+/// signing time of a case; all values lie inside the 2020-2040 validity of every other certificate of the hierarchy
+fn v_time(t: &str, win: (i64, i64)) -> Option<i64> {
+    match t {
+        "none" => None,
+        "inside" => Some((win.0 + win.1) / 2),
+        "before-notBefore" => Some(win.0 - pki::DAY),
+        "after-notAfter" => Some(win.1 + pki::DAY),
+        other => kit::ev::machinery(format!("C05: unknown time {other}")),
+    }
+}
+
+/// root -> inter -> ee, one of (ee, inter) with the given window, everything else valid 2020-2040
+fn v_hierarchy(which: &str, window: &str, kind: KeyKind, now: i64) -> Hierarchy {
+    let slot = format!("c05v-{}", kind.name());
+    let win = v_window(window, now);
+    let root = pki::issue(&CertSpec::ca("c05v Root CA", None), &pki::gen_key(kind, &format!("{slot}-root")), None);
+    let mut is = CertSpec::ca("c05v Intermediate CA", Some(0));
+    if which == "inter" {
+        (is.not_before, is.not_after) = win;
+    }
+    let inter = pki::issue(&is, &pki::gen_key(kind, &format!("{slot}-int")), Some(&root));
+    let mut es = CertSpec::ee("c05v signer");
+    if which == "ee" {
+        (es.not_before, es.not_after) = win;
+    }
+    let ee = pki::issue(&es, &pki::gen_key(kind, &format!("{slot}-ee")), Some(&inter));
+    Hierarchy { root: Some(root), inters: vec![inter], ee }
+}
+
+fn v_policy(h: &Hierarchy, anchors: &str) -> CertificateTrustPolicy {
+    let root = h.root.as_ref().map(|r| r.pem()).unwrap_or_default();
+    let mut ctp = CertificateTrustPolicy::new();
+    ctp.add_default_valid_ekus();
+    if anchors != "user" {
+        let _ = ctp.add_trust_anchors(root.as_bytes());
+    }
+    if anchors != "system" {
+        let _ = ctp.add_user_trust_anchors(root.as_bytes());
+    }
+    ctp
+}
+
+/// Direct seam: CertificateTrustPolicy::check_certificate_trust(chain, ee, signing_time_epoch).
+fn validity_direct(run: &Run, which: &str, window: &str, time: &str, kind: KeyKind, now: i64) {
+    let h = v_hierarchy(which, window, kind, now);
+    let win = v_window(window, now);
+    let t = v_time(time, win);
+    let x5 = h.chain(false);
+    let valid_at_t = t.map(|t| t >= win.0 && t <= win.1);
+    let mut classes: Vec<(&str, String, bool)> = vec![];
+    for a in V_ANCHORS {
+        let ctp = v_policy(&h, a);
+        let r = par::guard(|| ctp.check_certificate_trust(&x5[1..], &x5[0], t));
+        run.eval();
+        let tail = format!("which={which} window={window} time={time} anchors={a} kind={}", kind.name());
+        run.nontrivial(format!("validity direct {tail}"));
+        let case = json!({"seam":"validity-direct","which":which,"window":window,"time":time,"kind":kind.name()});
+        let r = match r {
+            Err(p) => {
+                run.violation(format!("validity direct panic {tail}"), p, case);
+                continue;
+            }
+            Ok(r) => r,
+        };
+        let shown = match &r { Ok(t) => format!("Ok({t:?})"), Err(e) => format!("Err({e:?})") };
+        run.outcome(format!("validity direct window={window} time={time} anchors={a}: {shown}"));
+        let why = format!("{which} certificate valid {}..{}, signing time {t:?} (valid at that time: {valid_at_t:?}); result {shown}", pki::der::time_string(win.0), pki::der::time_string(win.1));
+        match (valid_at_t, r.is_ok()) {
+            (Some(false), true) => run.violation(format!("validity direct trusted-outside-validity {tail}"), why.clone(), case.clone()),
+            (Some(true), false) => run.violation(format!("validity direct not-trusted-inside-validity {tail}"), why.clone(), case.clone()),
+            _ => {}
+        }
+        if *a == "user" && matches!(r, Ok(TrustAnchorType::System)) || *a == "system" && matches!(r, Ok(TrustAnchorType::User)) {
+            run.violation(format!("validity direct wrong-anchor-kind-reported {tail}"), why.clone(), case.clone());
+        }
+        classes.push((a, shown, r.is_ok()));
+    }
+    // the verdict must not depend on whether the same root is a system or a user anchor
+    if classes.len() == 3 && !(classes[0].2 == classes[1].2 && classes[1].2 == classes[2].2) {
+        run.violation(
+            format!("validity direct anchor-kind-dependence which={which} window={window} time={time} system={} user={} both={} kind={}", classes[0].1, classes[1].1, classes[2].1, kind.name()),
+            format!("same hierarchy, same signing time {t:?}: {classes:?}"),
+            json!({"seam":"validity-direct","which":which,"window":window,"time":time,"kind":kind.name()}),
+        );
+    }
+}
+
+/// Reader seam: the window-carrying hierarchy signs a PNG, a kit TSA fixes the signing time.
+fn validity_reader(run: &Run, tsa: &std::sync::Arc<pki::Tsa>, which: &str, window: &str, time: &str, kind: KeyKind, now: i64) {
+    let h = v_hierarchy(which, window, kind, now);
+    let win = v_window(window, now);
+    let t = v_time(time, win);
+    if t.is_some_and(|t| t > now - 600) {
+        return; // a token dated in the future is not a case the property describes
+    }
+    let minted: std::sync::Arc<std::sync::Mutex<Vec<(Vec<u8>, Vec<u8>)>>> = Default::default();
+    let mut signer = KitSigner::for_hierarchy(&h).direct();
+    if let Some(gt) = t {
+        let (tsa2, m2) = (tsa.clone(), minted.clone());
+        signer = signer.with_tsa(std::sync::Arc::new(move |msg: &[u8]| {
+            let imprint = pki::sha256(msg);
+            let reply = tsa2.build_reply(&imprint, &pki::TokenOpts { gen_time: gt, signing_time_attr: None, serial: pki::next_serial(), include_certs: true });
+            m2.lock().unwrap().push((reply.clone(), imprint));
+            Some(Ok(reply))
+        }));
+    }
+    let signed = pki::sign_asset(&signer, "image/png", &kit::assets::png(), pki::DEF_V2).unwrap_or_else(|e| kit::ev::machinery(format!("C05 validity: signing failed: {e}")));
+    if let Some(gt) = t {
+        let g = minted.lock().unwrap();
+        let Some((reply, imprint)) = g.last() else { kit::ev::machinery("C05 validity: no time-stamp requested") };
+        let token = pki::token_of_reply(reply).unwrap_or_else(|| kit::ev::machinery("C05 validity: reply without token"));
+        if !pki::ts_verify_cli(&token, imprint, &[&tsa.root], Some(gt)) {
+            kit::ev::machinery("C05 validity: openssl ts -verify rejects the kit token");
+        }
+    }
+    let valid_at_t = t.map(|t| t >= win.0 && t <= win.1);
+    let root = h.root.as_ref().map(|r| r.pem()).unwrap_or_default();
+    let mut seen: Vec<(&str, String, bool)> = vec![];
+    for a in V_ANCHORS {
+        // the TSA root is always a system anchor; only the kind of the signing root varies
+        let sys = if *a == "user" { tsa.root.pem() } else { format!("{}{}", tsa.root.pem(), root) };
+        let mut trust = serde_json::Map::new();
+        trust.insert("trust_anchors".into(), json!(sys));
+        if *a != "system" {
+            trust.insert("user_anchors".into(), json!(root));
+        }
+        let o = pki::observe(pki::read_ctx(Value::Object(trust), json!({"verify_trust": true})), "image/png", &signed);
+        run.eval();
+        let tail = format!("which={which} window={window} time={time} anchors={a} kind={}", kind.name());
+        run.nontrivial(format!("validity reader {tail}"));
+        let case = json!({"seam":"validity-reader","which":which,"window":window,"time":time,"kind":kind.name()});
+        let o = match o {
+            Err(p) => {
+                run.violation(format!("validity reader panic {tail}"), p, case);
+                continue;
+            }
+            Ok(o) => o,
+        };
+        let trusted = o.state == "Trusted" || o.any("signingCredential.trusted");
+        run.outcome(format!("validity reader window={window} time={time} anchors={a}: {} {:?}", o.state, o.pick(&["signingCredential"])));
+        let why = format!("{which} certificate valid {}..{}, time-stamped signing time {t:?} (valid then: {valid_at_t:?}); state {} codes {:?}", pki::der::time_string(win.0), pki::der::time_string(win.1), o.state, o.pick(&["signingCredential", "timeStamp"]));
+        if t.is_some() && !o.has("success", "timeStamp.validated") {
+            kit::ev::machinery(format!("C05 validity: the SDK does not use a good kit time-stamp ({tail}): {why}"));
+        }
+        match valid_at_t {
+            Some(false) if trusted => run.violation(format!("validity reader trusted-outside-validity {tail} state={}", o.state), why.clone(), case.clone()),
+            Some(true) if o.state != "Trusted" => run.violation(format!("validity reader not-trusted-inside-validity {tail} state={}", o.state), why.clone(), case.clone()),
+            _ => {}
+        }
+        seen.push((a, format!("{} {:?}", o.state, o.pick(&["signingCredential"])), trusted));
+    }
+    if seen.len() == 3 && !(seen[0].1 == seen[1].1 && seen[1].1 == seen[2].1) {
+        run.violation(
+            format!("validity reader anchor-kind-dependence which={which} window={window} time={time} kind={}", kind.name()),
+            format!("same asset, signing root configured as system / user / both anchor: {seen:?}"),
+            json!({"seam":"validity-reader","which":which,"window":window,"time":time,"kind":kind.name()}),
+        );
+    }
+}
+
+fn validity_section(run: &Run, kinds: &[KeyKind], only: Option<&Value>) {
+    let now = pki::now();
+    let tsa = std::sync::Arc::new(pki::Tsa::new("c05v", KeyKind::P256, |_| {}));
+    let mut items: Vec<(&str, &str, &str, KeyKind)> = vec![];
+    for &kind in kinds {
+        for which in V_WHICH {
+            for window in V_WINDOWS {
+                for time in V_TIMES {
+                    items.push((which, window, time, kind));
+                }
+            }
+        }
+    }
+    if let Some(c) = only {
+        let f = |k: &str, set: &'static [&'static str]| set.iter().find(|x| Some(**x) == c[k].as_str()).copied().unwrap_or(set[0]);
+        let (which, window, time) = (f("which", V_WHICH), f("window", V_WINDOWS), f("time", V_TIMES));
+        let kind = KeyKind::from_name(c["kind"].as_str().unwrap_or("p256"));
+        if c["seam"] == "validity-direct" {
+            validity_direct(run, which, window, time, kind, now);
+        } else {
+            validity_reader(run, &tsa, which, window, time, kind, now);
+        }
+        return;
+    }
+    run.space("validity direct: (varied certificate, window, signing time, key type) x anchor kind {system, user, both}", items.len() as u64 * 3, true);
+    par::for_each(&items, |(which, window, time, kind)| validity_direct(run, which, window, time, *kind, now));
+    let ritems: Vec<_> = items.iter().filter(|i| i.3 == KeyKind::P256 && v_time(i.2, v_window(i.1, now)).map_or(true, |t| t <= now - 600)).cloned().collect();
+    run.space("validity reader: (varied certificate, window, time-stamped signing time) x anchor kind (future-dated tokens excluded)", ritems.len() as u64 * 3, true);
+    par::for_each(&ritems, |(which, window, time, kind)| validity_reader(run, &tsa, which, window, time, *kind, now));
+    run.sample(json!({"validity_case": {"seam":"validity-direct","which":"ee","window":"expired","time":"inside","anchors":["system","user","both"]}}));
+}
+
 // ---------------------------------------------------------------------------------------------------------
 fn configs(eku: &str, thorough: bool) -> Vec<Cfg> {
     let mut v = vec![];
@@ -504,10 +714,11 @@ pub fn run(run: &Run, replay: Option<&Value>) {
     run.rule("hierarchy shape (depth 0-3, intermediate not a CA / without keyCertSign / pathLen exceeded / expired) x EE EKU (email, documentSigning, custom OID, serverAuth, anyEKU, absent) \
               x supplied chain (complete, +root, leaf only, missing upper/lower intermediate, reordered, same-name issuer from another root) x anchors (none, root as system/user, EE issuer as system, \
               unrelated, same-name look-alike root, mixed) x allow list (none, EE PEM, EE hash, other) x trust_config x verify_trust, full cross through Reader; plus CertificateTrustPolicy directly \
-              with every (system, user) anchor pair x allow list x trust-anchor-only mode. non-trivial = configurations with verify_trust on and some trust material configured (Reader), \
-              and direct cases with a user anchor in trust-anchor-only mode.");
+              with every (system, user) anchor pair x allow list x trust-anchor-only mode; plus validity window of EE / intermediate x signing time x anchor kind {system, user, both} on check_certificate_trust(chain, ee, signing_time) and, time-stamped by the kit TSA, through Reader. non-trivial = configurations with verify_trust on and some trust material configured (Reader), \
+              direct cases with a user anchor in trust-anchor-only mode, and every validity case.");
     run.assume("ground truth by construction: the kit knows which key signed which certificate; it is cross-checked against `openssl verify -x509_strict -partial_chain` for every (shape, chain, single anchor) and a disagreement on a definite case is a machinery failure");
     run.assume("'policy satisfied => Trusted' is demanded only for strictly conforming hierarchies with an ordered chain and an accepted EKU; an expired intermediate, a supplied root, a reordered chain and allow-listed certificates with an unaccepted EKU are checked in the direction 'trusted => policy satisfied' only");
+    run.assume("validity dimension: one certificate of a root->intermediate->EE chain gets the window {-30..+10 days, expired 30 days ago, valid from in 30 days}, signing time {none, inside, one day before notBefore, one day after notAfter}; with a signing time: not valid then => never trusted, valid then => trusted; without one only the system/user-anchor differential is demanded; Reader cases use kit time-stamps accepted by `openssl ts -verify` and exclude future-dated tokens");
     run.assume("an end-entity certificate configured as its own trust anchor is not enumerated (the property does not say whether that is a chain)");
     if !pki::cli_available() {
         kit::ev::machinery("C05: openssl CLI not available");
@@ -515,6 +726,10 @@ pub fn run(run: &Run, replay: Option<&Value>) {
     let kinds: Vec<KeyKind> = if run.tier.is_thorough() { vec![KeyKind::P256, KeyKind::Ed25519, KeyKind::Rsa2048, KeyKind::P384] } else { vec![KeyKind::P256] };
 
     if let Some(c) = replay {
+        if c["seam"].as_str().is_some_and(|x| x.starts_with("validity")) {
+            validity_section(run, &kinds, Some(c));
+            return;
+        }
         let shape = SHAPES.iter().find(|s| Some(**s) == c["shape"].as_str()).copied().unwrap_or("d1");
         let kind = KeyKind::from_name(c["kind"].as_str().unwrap_or("p256"));
         let chain_s = c["chain"].as_str().unwrap_or("complete");
@@ -583,5 +798,6 @@ pub fn run(run: &Run, replay: Option<&Value>) {
         let w = world(shape, *kind, "email");
         direct(run, &w, shape, *kind, chain);
     });
+    validity_section(run, &kinds, None);
     run.sample(json!({"reader_case": case_json("d3", KeyKind::P256, "custom", "missing-upper", &Cfg{anchors:"root-user", allow:"ee-hash", tc:true, vt:true})}));
 }
